@@ -1,6 +1,7 @@
 package core
 
 import (
+	"go/types"
 	"sort"
 
 	"golang.org/x/tools/go/callgraph"
@@ -51,9 +52,43 @@ func (p *Prog) Reachable(entries ...*ssa.Function) []*ssa.Function {
 		// the provider); also follow every non-mock implementation in the module
 		for _, b := range f.Blocks {
 			for _, ins := range b.Instrs {
-				if c, ok := ins.(ssa.CallInstruction); ok && c.Common().IsInvoke() {
+				c, ok := ins.(ssa.CallInstruction)
+				if !ok {
+					continue
+				}
+				if c.Common().IsInvoke() {
 					for _, impl := range p.Impls(c.Common().Method) {
 						push(impl)
+					}
+					continue
+				}
+				// a call through a function value the graph has no callee for (a value read from a package-level table of
+				// functions, say): every named function of the same package with exactly that signature may be meant
+				if c.Common().StaticCallee() != nil {
+					continue
+				}
+				if _, isBuiltin := c.Common().Value.(*ssa.Builtin); isBuiltin {
+					continue
+				}
+				resolved := false
+				if n := g.Nodes[f]; n != nil {
+					for _, e := range n.Out {
+						if e.Site == c && e.Callee.Func != nil && p.IsSubject(e.Callee.Func) {
+							resolved = true
+						}
+					}
+				}
+				if resolved || f.Pkg == nil {
+					continue
+				}
+				sig := c.Common().Signature()
+				for _, mem := range f.Pkg.Members {
+					cand, isF := mem.(*ssa.Function)
+					if !isF || cand.Signature.Recv() != nil || cand.Blocks == nil {
+						continue
+					}
+					if types.Identical(cand.Signature, sig) {
+						push(cand)
 					}
 				}
 			}
